@@ -68,7 +68,7 @@ def shrink_case(case, pred):
 def correspond(ctx, prop):
     n = ctx.budget(400, 6000)
     maxn = ctx.budget(8, 14)
-    runs = []
+    runs, batch_cases = [], []
     salt = {"C01": 11, "C02": 22, "C03": 33, "C04": 44}[prop]
     import glob
     from ekw.core import CORPUS_DIR
@@ -96,6 +96,10 @@ def correspond(ctx, prop):
                     res = r2
                     break
         runs.append(res)
+        batch_cases.append(c)
+        if len(runs) >= 300:
+            _replay_batch(ctx, prop, runs, batch_cases)
+            runs, batch_cases = [], []   # traces are large: keeping thousands alive makes the GC pauses exceed run_case's alarm
         st = res["stats"]
         nontrivial = st["transmits"] + st["fetches"] + st["purges"] > 0
         ctx.case({"spec": c["spec"], "workers": c["workers"], "seed": c["seed"], "fifo": c["fifo"]}, nontrivial=nontrivial)
@@ -127,6 +131,12 @@ def correspond(ctx, prop):
             if c.get("none_output") is not None:
                 small["none_output"] = c["none_output"]
             ctx.violation(sig, small, f"{kind}: {detail} (job with {len(small['spec']['tasks'])} tasks on {len(small['workers'])} workers, schedule seed {c['seed']}, {'fifo' if c['fifo'] else 'anyOrder'})")
+    _replay_batch(ctx, prop, runs, batch_cases)
+
+
+def _replay_batch(ctx, prop, runs, cases):
+    if not runs:
+        return
     # model replay
     lines = []
     for r in runs:
@@ -163,7 +173,6 @@ def correspond(ctx, prop):
                 for d_, v in r["outputs"].items():
                     if mo_out.get(d_) != v:
                         ctx.disagree("outputs", c["spec"], mo_out.get(d_), v)
-    return runs
 
 
 def replay(payload, prop):
